@@ -251,18 +251,71 @@ def tree_tags(tree, tokens):
     return tags
 
 
-def classify(tags, intercept, outcome_kind):
-    if "dot" in tags and not intercept:
-        base = "dot-with-no-intercept-parser"
-    elif "sign-zero-after-structural" in tags:
-        base = "sign-then-0-after-structural-operator"
-    elif "run2-after-structural" in tags:
-        base = "sign-run-after-structural-operator"
-    elif "pow-chain" in tags:
-        base = "pow-chain-associativity"
-    else:
-        base = "other"
-    return f"{base}/{outcome_kind}"
+def _map_tree(t, fn):
+    k = t[0]
+    if k == "formula":
+        return ("formula", None if t[1] is None else tuple(_map_tree(p, fn) for p in t[1]), tuple(_map_tree(p, fn) for p in t[2]), t[3])
+    if k == "un":
+        t = ("un", t[1], _map_tree(t[2], fn))
+    elif k == "par":
+        t = ("par", _map_tree(t[1], fn))
+    elif k == "bin":
+        t = ("bin", t[1], t[2], _map_tree(t[3], fn), _map_tree(t[4], fn))
+    return fn(t)
+
+
+def _neutral_pow(tree):
+    """(A ** m) ** n written with explicit parentheses."""
+
+    def fn(t):
+        if t[0] == "bin" and t[1] in E.POW_OPS and t[3][0] == "bin" and t[3][1] in E.POW_OPS:
+            return ("bin", t[1], t[2], ("par", t[3]), t[4])
+        return t
+
+    return _map_tree(tree, fn)
+
+
+def _neutral_leading(tree, mode):
+    """Sign runs at the start of a formula part written as their parity-collapsed single sign
+    (mode 'runs'), `<signs>0` written as `<sign>1` (mode 'zero')."""
+
+    def lead(e):
+        if e[0] == "un":
+            if e[2] == E.ZERO:
+                return ("un", E.parity(e[1] + "-"), E.ONE) if mode == "zero" else e
+            return ("un", E.parity(e[1]), e[2]) if mode == "runs" else e
+        if e[0] == "bin" and e[1] in E.ADD_OPS:
+            return ("bin", e[1], e[2], lead(e[3]), e[4])
+        return e
+
+    return ("formula", None if tree[1] is None else tuple(lead(p) for p in tree[1]), tuple(lead(p) for p in tree[2]), tree[3])
+
+
+NEUTRALIZERS = (
+    ("pow-chain-associativity", {"pow-chain"}, _neutral_pow),
+    ("sign-run-after-structural-operator", {"run2-after-structural"}, lambda t: _neutral_leading(t, "runs")),
+    ("sign-then-0-after-structural-operator", {"sign-zero-after-structural"}, lambda t: _neutral_leading(t, "zero")),
+)
+
+
+def attribute(tree, tags, intercept, out, passes):
+    """Name the root cause of a failing witness by *confirmation*: the class of a known
+    construct is only used when rewriting that construct (and nothing else) into an equivalent
+    spelling makes the same check pass; otherwise 'other'. Labels only."""
+    if "dot" in tags and not intercept and out[0] == "error" and out[1] == "KeyError":
+        return "dot-with-no-intercept-parser"
+    applicable = [(n, f) for n, ts, f in NEUTRALIZERS if ts & set(tags)]
+    for n, f in applicable:
+        t2 = f(tree)
+        if t2 != tree and passes(t2):
+            return n
+    if len(applicable) > 1:
+        t3 = tree
+        for n, f in applicable:
+            t3 = f(t3)
+        if t3 != tree and passes(t3):
+            return "combined:" + "+".join(n for n, _ in applicable)
+    return "other"
 
 
 # --------------------------------------------------------------------------------------
@@ -348,7 +401,22 @@ def judge(acc, tree, s, tokens, intercept, flags, avail, ex, do_formula, clause_
             clause, kind, got = f"{clause_prefix}.rejected", "rejected", out[1]
         else:
             clause, kind, got = f"{clause_prefix}.internal-error", f"error:{out[1]}", f"{out[1]}: {out[2]}"
-        cls = classify(tags, intercept, kind)
+        def passes(t2):
+            if t2[0] != "formula":
+                return False
+            s2 = E.show(t2)
+            ex2 = expectation(t2, intercept, avail)
+            if ex2.unspecified:
+                return False
+            if via == "get_terms":
+                o2 = observe(lambda: parser.get_terms(s2, context=ctx))
+                return (o2[0] == "ok" and (o2[1] in ex2.pre or any(_sorted_or_none(o2[1], lc) in ex2.post for lc in (False, True)))) or (o2[0] == "reject" and (ex2.allow_reject or ex2.must_reject))
+            from formulaic import Formula
+
+            o2 = observe(lambda: Formula(s2, _parser=parser, _context=ctx))
+            return (o2[0] == "ok" and o2[1] in ex2.post) or (o2[0] == "reject" and (ex2.allow_reject or ex2.must_reject))
+
+        cls = attribute(tree, tags, intercept, out, passes) + "/" + kind
         w = dict(wbase, via=via, observed=got, expected_any_of=exp_plain[:4], code=repro_parse(psrc, s, avail, exp_plain, ex.allow_reject, via))
         acc.fail(clause, cls, w, f"{via}({s!r}) with {psrc}: observed {got!r}; documented algebra gives {exp_plain[:2]!r} ({ex.why})")
 
